@@ -16,6 +16,7 @@ EXPLANATION = (
     "matching tie_prev link, and split_note restores the original outgoing tie on the last piece and moves the slur ends to "
     "it; (NOPITCH) none of the normalising functions stores to step/alter/octave of a note; (F7j) duplicate top-level "
     "definitions are identical or reported."
+    ' (COUNTER) along every structured path of the measure loop the numbers handed out are consecutive and the counter ends at the next free one.'
 )
 NOT_DECIDED = [
     "measures tile the timeline; note array invariance; the split search; the 1..960 estimator sweep (run-time values)",
